@@ -150,6 +150,21 @@ def run(ctx):
                 bad = bad or "the value copied is not a slot of the record"
     o.check(bad is None, "record walk + slot loop", bad, site=sc.loc, construct="scan coverage")
 
+    o = ctx.ob("scan.fence", sc, "the scan executes a full (store->load) fence before it reads the other records' hazard slots",
+               "the retiring thread unlinked the node with a store that may still sit in its store buffer (a plain or release store is a legal way to unlink): "
+               "without a fence the scan's reads of the hazard slots can be satisfied before that store is visible, a reader validates the node against the "
+               "old link and publishes it, the scan sees the slot still empty -- and reclaims a protected node")
+    full = is_full_fence(sc)
+    slot_reads = [n for n in sc.nodes if n.k == "ImplicitCastExpr" and n.ck == "LValueToRValue" and strip(n) is not None and strip(n).k == "ArraySubscriptExpr"
+                  and key_mentions(sc.key(strip(n).kids[0], True), lambda x: x[0] == "f" and x[1] == R and x[2] == "hazard_pointers")]
+    if not slot_reads:
+        raise AnalysisBroken("hazard_pointer_scan: reads of the hazard slots not found")
+    w = None
+    for n in slot_reads:
+        w = w or sc.dominated_by(n, full)
+    o.check(w is None, "fence dominates %d slot read(s)" % len(slot_reads), "the hazard slots are read on a path without a preceding full fence", site=slot_reads[0], witness=w,
+            construct="scan reads hazard slots without a store-load fence")
+
     o = ctx.ob("scan.sorted", sc, "plist is sorted (qsort over the copied count, comparator = unsigned address order) before any binary_search over the same "
                "count; the comparator and the search agree on enumerated arrays including addresses >= 2^63",
                "searching an unsorted array (or one sorted by a different order, e.g. signed) misses a hazard that is present: the protected node is freed")
